@@ -194,6 +194,10 @@ def run(ctx, case):
             return
         g = _cap["graphs"][-1]
         nodes, clusters, edges, dup = graph_content(g)
+        gat = {k: unq(v) if isinstance(v, str) else v for k, v in g.get_attributes().items()}
+        bdg = dict((conf_before or ns.diagram.get_conf())["graph"])
+        bdg["label"] = spec.get("name", "sys") + (" - Loss heat map" if heat else "")
+        ctx.check("diag.graph_attrs", gat == bdg, dict(det0, got=gat, expected=bdg))
         judge(ctx, ns, spec, conf_before, heat, grp, losses, nodes, clusters, edges, dup, det0, "diag")
         # end-to-end: re-parse the written DOT text
         import pydot
@@ -300,6 +304,18 @@ def judge(ctx, ns, spec, conf, heat, grp, losses, nodes, clusters, edges, dup, d
         if got != want:
             bad.append((n, cm[n]["kind"], {k: (got.get(k), want.get(k)) for k in set(got) | set(want) if got.get(k) != want.get(k)}))
     ctx.check("diag.attr_precedence", not bad, dict(det0, differences_got_vs_expected=bad[:5], kind=hk))
+    # edges carry the configured edge attributes, clusters default < group-name overrides (+ their label)
+    ebad = [(a, b, at) for a, b, at in edges if {k: unq(v) if isinstance(v, str) else v for k, v in at.items()} != dict(bd["edge"])]
+    ctx.check("diag.edge_attrs", not ebad, dict(det0, expected=bd["edge"], bad=ebad[:4], kind=hk))
+    cbad = []
+    for cname, cl in clusters.items():
+        g_ = cname[len("cluster_"):]
+        want = dict(bd["cluster"]["default"])
+        want.update(bd["cluster"].get(g_, {}))
+        want["label"] = g_
+        if cl["attrs"] != want:
+            cbad.append((cname, {k: (cl["attrs"].get(k), want.get(k)) for k in set(cl["attrs"]) | set(want) if cl["attrs"].get(k) != want.get(k)}))
+    ctx.check("diag.cluster_attrs", not cbad, dict(det0, differences_got_vs_expected=cbad[:4], kind=hk))
     if not heat:
         return
     # heat: labels, colours, legend
